@@ -59,11 +59,15 @@ Kind(f) == CASE f = "none" -> "none"
 (*   entry : plain = prepare_document_set, bundled = prepare_bundled_document_set                *)
 TDecl(p) == IF p.fmt = "none" THEN p.uDecl ELSE p.cDecl
 
-DocSizeRight(p, d) == d = "full" /\ p.cons
-LinesOK(p, d) == d \in {"full", "last"} /\ p.cons
-TableFor(d) == CASE d \in {"full", "last"} -> "X" [] d = "other" -> "O" [] OTHER -> "part"
+(* further classes: doc = flip : size and line count of the published document, one byte of content differs;           *)
+(*                  arch = C   : size of the genuine archive, one payload byte differs (gzip only): expands to flip and  *)
+(*                               then fails the CRC check in the trailer                                                *)
+SizeRightArch == {"G", "C"}
+DocSizeRight(p, d) == d \in {"full", "flip"} /\ p.cons
+LinesOK(p, d) == d \in {"full", "last", "flip"} /\ p.cons
+TableFor(d) == CASE d \in {"full", "last", "flip"} -> "X" [] d = "other" -> "O" [] OTHER -> "part"
 AsDoc(c) == CASE c = "G" -> "full" [] c = "Th" -> "mid" [] c = "Te" -> "last" [] c = "J" -> "other" [] OTHER -> "empty"
-NextCls(d) == CASE d = "empty" -> "mid" [] d = "mid" -> "last" [] OTHER -> "full"
+NextCls(d, goal) == CASE d = "empty" -> "mid" [] d = "mid" -> "last" [] OTHER -> (IF goal = "flip" THEN "flip" ELSE "full")
 
 (***************************************************************************)
 (* What the decompressors do with each archive class (facts about bz2,      *)
@@ -76,11 +80,13 @@ LibOut(f, a) ==
     CASE a = "G"  -> [out |-> "full", err |-> FALSE]
       [] a = "J"  -> [out |-> "empty", err |-> TRUE]
       [] a = "E"  -> [out |-> "empty", err |-> f = "bz2"]
+      [] a = "C"  -> [out |-> "last", err |-> TRUE]     \* gzip raises on the read that reaches the trailer: the last chunk is not written
       [] a = "Th" -> [out |-> "mid", err |-> (f # "zst") \/ DetectTruncation]
       [] OTHER    -> [out |-> IF f = "bz2" THEN "mid" ELSE "last", err |-> (f # "zst") \/ DetectTruncation]
 
 ToolOut(f, a) ==
     CASE a = "G"  -> [out |-> "full", err |-> FALSE]
+      [] a = "C"  -> [out |-> "flip", err |-> TRUE]     \* pigz streams everything, then reports the crc mismatch (exit 1)
       [] a = "Th" -> [out |-> "mid", err |-> TRUE]
       [] a = "Te" -> [out |-> IF f = "bz2" THEN "mid" ELSE "last", err |-> TRUE]
       [] OTHER    -> [out |-> "empty", err |-> TRUE]
@@ -119,13 +125,13 @@ StepRaw(p, m, o) ==
     CASE m.pc = "loop" ->
            IF p.entry = "plain" THEN
                IF fs.doc # Absent /\ (p.uDecl => DocSizeRight(p, fs.doc)) THEN Goto(m, "off.check")
-               ELSE IF f # "none" /\ fs.arch # Absent /\ (p.cDecl => fs.arch = "G") THEN Goto(m, "dec.begin")
+               ELSE IF f # "none" /\ fs.arch # Absent /\ (p.cDecl => fs.arch \in SizeRightArch) THEN Goto(m, "dec.begin")
                ELSE Goto(m, "dl.begin")
            ELSE
                IF fs.doc # Absent THEN
                    IF p.uDecl => DocSizeRight(p, fs.doc) THEN Goto(m, "off.check") ELSE Raise(m, "DataError")
                ELSE IF f # "none" /\ fs.arch # Absent THEN
-                   IF p.cDecl => fs.arch = "G" THEN Goto(m, "dec.begin") ELSE Raise(m, "DataError")
+                   IF p.cDecl => fs.arch \in SizeRightArch THEN Goto(m, "dec.begin") ELSE Raise(m, "DataError")
                ELSE Decline(m)
       (* ---- Downloader.download / net.download / download_http / _download_http ---- *)
       [] m.pc = "dl.begin" ->
@@ -141,7 +147,7 @@ StepRaw(p, m, o) ==
            ELSE IF m.cur = "proto" THEN      \* ProtocolError / ReadTimeoutError: retried with a pause
                IF m.att = Retries THEN [m EXCEPT !.pc = "dl.cleanup", !.exc = "NetError"]
                ELSE [m EXCEPT !.pc = "dl.attempt", !.att = @ + 1]
-           ELSE IF TDecl(p) => (m.cur = "G" /\ (f = "none" => p.cons)) THEN Goto(m, "dl.rename")
+           ELSE IF TDecl(p) => (m.cur \in SizeRightArch /\ (f = "none" => p.cons)) THEN Goto(m, "dl.rename")
            ELSE [m EXCEPT !.pc = "dl.cleanup", !.exc = "DataError"]
       [] m.pc = "dl.cleanup" -> Raise([m EXCEPT !.fs.tmp = Absent], m.exc)
       [] m.pc = "dl.rename" ->
@@ -160,13 +166,13 @@ StepRaw(p, m, o) ==
       [] m.pc = "lib.write" ->
            LET g == LibOut(f, fs.arch)
            IN IF m.dout = g.out THEN (IF g.err THEN Raise(m, "LibError") ELSE Goto(m, "dec.check"))
-              ELSE DW(m, NextCls(m.dout))
+              ELSE DW(m, NextCls(m.dout, g.out))
       [] m.pc = "cont.open" -> Goto(DW(m, "empty"), "cont.write")
       [] m.pc = "cont.write" ->
            LET g == ContOut(f, fs.arch)
            IN IF m.dout = g.out
               THEN (IF g.err THEN Raise(m, "LibError") ELSE Goto(m, IF Kind(f) = "tar" THEN "cont.meta" ELSE "dec.check"))
-              ELSE DW(m, NextCls(m.dout))
+              ELSE DW(m, NextCls(m.dout, g.out))
       [] m.pc = "cont.meta" ->       \* tarfile restores the member's (old) mtime
            IF AtomicDecompress THEN Goto(m, "dec.check")
            ELSE [m EXCEPT !.pc = "dec.check", !.fs.newer = (fs.off # Absent)]
@@ -211,7 +217,7 @@ NeedsOutcome(m) == m.pc = "dl.attempt"
 Flushed(q, mm) ==      \* closing the half-written document flushes what was still buffered: it may reach the next class
     LET goal == IF mm.pc = "lib.write" THEN LibOut(q.fmt, mm.fs.arch).out ELSE ContOut(q.fmt, mm.fs.arch).out
     IN {mm.fs} \cup (IF ~AtomicDecompress /\ mm.pc \in {"lib.write", "cont.write"} /\ mm.dout # goal
-                     THEN {[mm.fs EXCEPT !.doc = NextCls(mm.dout)]} ELSE {})
+                     THEN {[mm.fs EXCEPT !.doc = NextCls(mm.dout, goal)]} ELSE {})
 
 Leftovers(q, mm, kind) ==
     IF kind = "kill" THEN {[res |-> "crashed", exc |-> "-", fs |-> mm.fs]}
@@ -253,6 +259,7 @@ InDomain(q, fs) ==
     /\ (fs.doc \notin {Absent, "full"} => q.uDecl)
     /\ (q.fmt = "none" => fs.arch = Absent)
     /\ (Kind(q.fmt) \in {"zip"} => fs.arch # "Te")
+    /\ (fs.arch = "C" => q.fmt = "gz")
     /\ (fs.newer => fs.doc # Absent /\ fs.off # Absent)
 
 InitFs(q) == {fs \in [doc : InitDocs, arch : InitArchs, tmp : InitTmps, off : InitOffs, newer : BOOLEAN] : InDomain(q, fs)}
@@ -260,7 +267,7 @@ InitFs(q) == {fs \in [doc : InitDocs, arch : InitArchs, tmp : InitTmps, off : In
 (* a complete exchange that delivers something else than the genuine file is only told apart by a declared size,  *)
 (* by the archive format, or by the line count: for an uncompressed corpus of undeclared size a body cut inside    *)
 (* the last line is indistinguishable from the published file and is excluded                                     *)
-OutcomeAllowed(q, o) == ~(q.fmt = "none" /\ ~q.uDecl /\ o = "Te")
+OutcomeAllowed(q, o) == ~(q.fmt = "none" /\ ~q.uDecl /\ o = "Te") /\ (o = "C" => q.fmt = "gz")
 
 Init == /\ p \in Params
         /\ \E fs \in InitFs(p) : m = Start(fs)
@@ -312,7 +319,7 @@ SimSpec == SimInit /\ [][SimSetup \/ (run > 0 /\ Next)]_vars
 
 (* after preparation returns: the document exists with the declared size and the published content, together with an *)
 (* offset table that positions exactly (a table that is a prefix of the complete one between entries does)           *)
-OffsetsCorrectFor(d, t) == (d \in {"full", "last"} /\ t \in {"X", "part"}) \/ (d \in {"empty", "mid"} /\ t = "part") \/ (d = "other" /\ t \in {"O", "part"})
+OffsetsCorrectFor(d, t) == (d \in {"full", "last", "flip"} /\ t \in {"X", "part"}) \/ (d \in {"empty", "mid"} /\ t = "part") \/ (d = "other" /\ t \in {"O", "part"})
 Post(q, fs) == /\ fs.doc = "full"
                /\ (q.uDecl => q.cons)
                /\ fs.off # Absent /\ OffsetsCorrectFor(fs.doc, fs.off)
@@ -326,10 +333,13 @@ ExplicitEnd == Terminal(m) => m.res \in {"returned", "declined", "raised", "cras
 
 (* a file under the final name that was put there by a download is complete and verified *)
 Target(q, fs) == IF q.fmt = "none" THEN fs.doc ELSE fs.arch
-NoPartialFinal == m.wrote => (TDecl(p) => Target(p, m.fs) = (IF p.fmt = "none" THEN "full" ELSE "G"))
+NoPartialFinal == m.wrote => (TDecl(p) => (IF p.fmt = "none" THEN Target(p, m.fs) = "full" ELSE Target(p, m.fs) \in SizeRightArch))
 
 (* the violations of ReturnedOK that the CURRENT code is known to have (all switches FALSE); used to show that there are no others *)
 PartialDocAccepted(q, fs) == ~q.uDecl /\ fs.doc \in {"empty", "mid", "last", "other"}
 BadTableTrusted(q, fs) == fs.doc = "full" /\ fs.off \in {"torn", "bad", "O"}
-ReturnedOKModuloKnown == ReturnedOK \/ PartialDocAccepted(p, m.fs) \/ BadTableTrusted(p, m.fs)
+(* a document of the right size with wrong content is under the final name only between the end of a failing external tool and *)
+(* the library fall-back (a crash exactly there leaves it): same root cause as PartialDocAccepted, also with a declared size    *)
+CorruptPayloadLeft(q, fs) == fs.doc = "flip"
+ReturnedOKModuloKnown == ReturnedOK \/ PartialDocAccepted(p, m.fs) \/ BadTableTrusted(p, m.fs) \/ CorruptPayloadLeft(p, m.fs)
 =============================================================================
